@@ -6,7 +6,7 @@ Driver for area `rules` (property C13).
 
 Rule token  g:id:index:ov:start:end:role:count:lbl      (ranks; ov 0/1)
 Ops
-  reset | restart
+  reset | restart [fail=<k>]     (restart = Initialize on the live storage; fail: its (k+1)-th storage write fails)
   set <rule> | del <g> <id> | setrules <rule>,… | getmodset <g> <id> <count>
   batch <item>,…            item = +<rule> | -<g>:<id> | ~<g>:<prefix>:<lo>:<hi>
   setgroup <g> <index> <ov> | delgroup <g>
@@ -207,6 +207,21 @@ def storageInSync (rep : Report) : Bool :=
     storedKeysOK && sortStrs stored == sortStrs served && sortStrs storedG == sortStrs servedG
   | _ => false
 
+/-- (storage key, key of the rule stored there) of every parsable entry of a raw storage dump -/
+def storedKeys (st : String) : List (String × String) :=
+  match st.splitOn "/" with
+  | rs :: _ =>
+    if rs == "-" then [] else (rs.splitOn ",").filterMap (fun kv =>
+      match kv.splitOn "=" with
+      | [k, v] => (match v.splitOn ":" with | g :: id :: _ :: _ => some (k, s!"{g}.{id}") | _ => none)
+      | _ => none)
+  | [] => []
+
+/-- chained foreign keys: a rule stored under a foreign key whose own key holds (the only copy of) another rule -/
+def chainedForeign (st : String) : Bool :=
+  let es := storedKeys st
+  es.any (fun e1 => e1.1 != e1.2 && es.any (fun e2 => e2.1 == e1.2 && e2.2 != e1.2))
+
 def monitor (m : Mon) (coreOp : String) (isUpdate : Bool) (impl : String) (restartFromClean : Option Bool := none) :
     Mon × List String :=
   match parseReport impl with
@@ -261,12 +276,20 @@ def monitor (m : Mon) (coreOp : String) (isUpdate : Bool) (impl : String) (resta
           (if clean && servedStr p != servedStr rep then
             [s!"sig=C13.restart-changed-served before={p.r}/{p.g} after={rep.r}/{rep.g}"] else [])
       | _, _ => []
+    -- a start-up that failed (storage error during the key repairs, or an invalid stored configuration) must not lose
+    -- anything: what a healthy start-up on the storage would serve is what it would have served before
+    let f8 := match restartFromClean, m.prev with
+      | some _, some p =>
+        if rep.out == "load-failed" && p.l != "err" && rep.l != p.l then
+          [s!"sig=C13.failed-initialize-lost-rules{if chainedForeign p.st then "-chained-foreign-keys" else ""} recoverable-before={p.l} recoverable-after={rep.l} storage-before={p.st}"]
+        else []
+      | _, _ => []
     let failedSince' := if sync then false else (m.failedSince || rep.out == "err-storage")
     let failedOp' :=
       if rep.out == "err-storage" then (if m.synced || coreOp == m.failedOp then coreOp else "")
       else if isUpdate then "" else m.failedOp
     ({ m with prev := some rep, synced := sync, failedSince := failedSince', failedOp := failedOp' },
-     f1 ++ f2 ++ f3 ++ f4 ++ f5 ++ f6 ++ f7)
+     f1 ++ f2 ++ f3 ++ f4 ++ f5 ++ f6 ++ f7 ++ f8)
 
 structure DState where
   st      : St := {}
@@ -288,10 +311,10 @@ def stepPlain (d : DState) (opLine : String) (impl : String) : DState × StepOut
     let (mon, fails) := monitor {} coreOp false impl
     ({ st := s, mon := mon }, { model := s!"ok {obsStr s}", fails := fails })
   | ["restart"] =>
-    let (r, store) := initMgr ip d.st.store
+    let (r, store) := initMgrF ip d.st.store (fail.map (·.1))
     let (s, out) := match r with
-      | .ok m => (({ mgr := m, store := store } : St), "ok")
-      | .error _ => ({ d.st with store := store }, "load-failed")
+      | some m => (({ mgr := m, store := store } : St), "ok")
+      | none => ({ d.st with store := store }, "load-failed")
     let mon0 := if out == "ok" then { d.mon with failedSince := false, failedOp := "", external := false } else d.mon
     let (mon, fails) := monitor mon0 coreOp false impl (some (d.mon.synced && !d.mon.external))
     ({ st := s, mon := mon }, { model := s!"{out} {obsStr s}", fails := fails })
